@@ -3,7 +3,8 @@
      * the entries of a data card and the list of numbers they stand for
        (nR repeats the previous entry n times, nI inserts n linear interpolates
        between the previous and the following number, xM multiplies the previous
-       entry by x, nJ leaves n entries at their default);
+       entry by x, nJ leaves n entries at their default, nLOG / nILOG inserts n
+       values with a constant ratio);
      * the importance of a cell given several particle types: the cell is left
        out iff every particle's importance is zero, i.e. (importances being
        non-negative) iff the largest one is zero;
@@ -18,13 +19,16 @@ Import ListNotations.
 
 Section Spec.
   Context {T : Type} (Sc : Scalar T).
+  (* x ** y, needed only by the logarithmic interpolation nLOG / nILOG *)
+  Context (pw : T -> T -> T).
 
   Inductive entry :=
   | EVal (x : T)              (* a number *)
   | ERep (n : nat)            (* nR *)
   | EInt (n : nat) (b : T)    (* nI followed by the number b *)
   | EMul (x : T)              (* xM *)
-  | EJump (n : nat).          (* nJ *)
+  | EJump (n : nat)           (* nJ *)
+  | ELog (n : nat) (b : T).   (* nLOG / nILOG followed by the number b *)
 
   (* the k-th (k = 1..n) of n values evenly spaced between a and b *)
   Definition interp (a b : T) (n k : nat) : T :=
@@ -33,6 +37,20 @@ Section Spec.
 
   Definition interpolates (a b : T) (n : nat) : list T :=
     map (interp a b n) (seq 1 n).
+
+  (* the k-th (k = 1..n) of n values between a and b with a constant ratio:
+     a * ((b/a) ** (1/(n+1))) ** k *)
+  Definition log_interp (a b : T) (n k : nat) : T :=
+    smul Sc a (pw (pw (sdiv Sc b a) (sdiv Sc (s1 Sc) (sofZ Sc (Z.of_nat n + 1)%Z)))
+                  (sofZ Sc (Z.of_nat k))).
+
+  Definition log_interpolates (a b : T) (n : nat) : list T :=
+    map (log_interp a b n) (seq 1 n).
+
+  (* logarithmic interpolation needs a non-zero start and, when values are
+     inserted, ends of the same sign *)
+  Definition log_ok (a b : T) (n : nat) : bool :=
+    negb (seqb Sc a (s0 Sc)) && negb (sltb Sc (sdiv Sc b a) (s0 Sc) && (1 <=? n)%nat).
 
   (* the numbers a list of entries stands for; None in the result = an entry
      left at its default (jumped). [prev] = the entry that precedes (None: there
@@ -63,6 +81,14 @@ Section Spec.
     | EJump n :: r =>
         option_map (app (repeat None n))
                    (meaning r (match n with O => prev | S _ => Some None end))
+    | ELog n b :: r =>
+        match prev with
+        | Some (Some a) =>
+            if log_ok a b n
+            then option_map (app (map Some (log_interpolates a b n) ++ [Some b])) (meaning r (Some (Some b)))
+            else None
+        | _ => None
+        end
     end.
 
   (* the larger of two numbers (the first one when they are equal) *)
@@ -96,4 +122,4 @@ Section Spec.
     fold_left zip_max2 others first.
 End Spec.
 
-Arguments EVal {T}. Arguments ERep {T}. Arguments EInt {T}. Arguments EMul {T}. Arguments EJump {T}.
+Arguments EVal {T}. Arguments ERep {T}. Arguments EInt {T}. Arguments EMul {T}. Arguments EJump {T}. Arguments ELog {T}.
